@@ -1,6 +1,7 @@
 //! C10 — dijkstra, astar, k_shortest_path on every storage type that meets the trait bounds, with
-//! non-negative integer costs presented as u32 / u64 / integer-valued f64, and the `MinScored`
-//! order itself (src/scored.rs is a private module of petgraph: the real source file is compiled
+//! non-negative costs presented as u32 / u64 / integer-valued f32 / f64, or as the non-integer dyadic
+//! floats w/8 (`f32q`, `f64q`: exactly representable, sums exact; printed in units of 1/8), and the
+//! `MinScored` order itself (src/scored.rs is a private module of petgraph: the real source file is compiled
 //! into the harness by path, so the table below exercises the code the algorithms use).
 //!
 //! Lines (all node ids abstract):
@@ -42,6 +43,36 @@ impl Cost for f64 {
     const NAME: &'static str = "f64";
     fn from_i(i: i64) -> f64 { i as f64 }
     fn show(self) -> String { show_f(self) }
+}
+impl Cost for f32 {
+    const NAME: &'static str = "f32";
+    fn from_i(i: i64) -> f32 { i as f32 }
+    fn show(self) -> String { show_f(self as f64) }
+}
+
+/// costs that are multiples of 1/8 (non-integer, exactly representable dyadic floats); the protocol
+/// carries them in units of 1/8, i.e. as the integers the abstract graph holds
+#[derive(Debug, Clone, Copy, PartialEq, PartialOrd, Default)]
+struct Q64(f64);
+impl std::ops::Add for Q64 {
+    type Output = Q64;
+    fn add(self, o: Q64) -> Q64 { Q64(self.0 + o.0) }
+}
+impl Cost for Q64 {
+    const NAME: &'static str = "f64q";
+    fn from_i(i: i64) -> Q64 { Q64(i as f64 / 8.0) }
+    fn show(self) -> String { show_f(self.0 * 8.0) }
+}
+#[derive(Debug, Clone, Copy, PartialEq, PartialOrd, Default)]
+struct Q32(f32);
+impl std::ops::Add for Q32 {
+    type Output = Q32;
+    fn add(self, o: Q32) -> Q32 { Q32(self.0 + o.0) }
+}
+impl Cost for Q32 {
+    const NAME: &'static str = "f32q";
+    fn from_i(i: i64) -> Q32 { Q32(i as f32 / 8.0) }
+    fn show(self) -> String { show_f(self.0 as f64 * 8.0) }
 }
 
 /// integer-valued floats print as integers (so `-0.0` is `0`), the rest symbolically / raw
@@ -131,13 +162,22 @@ where
     );
 }
 
+/// cost type of one call: u32 / u64 / f64 always; the 24-bit-exact f32 and the dyadic types only when
+/// the costs are small (`big` = weights scaled towards u32::MAX)
 macro_rules! with_cost {
-    ($rng:expr, $f:ident, $($args:expr),*) => {
-        match $rng.below(3) { 0 => $f::<_, u32>($($args),*), 1 => $f::<_, u64>($($args),*), _ => $f::<_, f64>($($args),*) }
+    ($rng:expr, $big:expr, $f:ident, $($args:expr),*) => {
+        match $rng.below(if $big { 3 } else { 6 }) {
+            0 => $f::<_, u32>($($args),*),
+            1 => $f::<_, u64>($($args),*),
+            2 => $f::<_, f64>($($args),*),
+            3 => $f::<_, f32>($($args),*),
+            4 => $f::<_, Q64>($($args),*),
+            _ => $f::<_, Q32>($($args),*),
+        }
     };
 }
 
-fn algos<G>(ctx: &mut Ctx, rng: &mut Rng, ag: &AG, hint: Option<(usize, usize)>, g: G, abs: &dyn Fn(G::NodeId) -> usize, conc: &dyn Fn(usize) -> G::NodeId)
+fn algos<G>(ctx: &mut Ctx, rng: &mut Rng, ag: &AG, hint: Option<(usize, usize)>, big: bool, g: G, abs: &dyn Fn(G::NodeId) -> usize, conc: &dyn Fn(usize) -> G::NodeId)
 where
     G: IntoEdges + Visitable + NodeCount + NodeIndexable + Data<EdgeWeight = i64> + Copy,
     G::NodeId: Eq + Hash + Copy,
@@ -149,7 +189,7 @@ where
     // dijkstra without goal
     for _ in 0..2 {
         let s = pick_source(rng, ag);
-        with_cost!(rng, one_dij, ctx, g, s, None, abs, conc);
+        with_cost!(rng, big, one_dij, ctx, g, s, None, abs, conc);
     }
     // dijkstra with goal: prefer reachable goals, sometimes unreachable / the source itself
     for _ in 0..3 {
@@ -157,7 +197,7 @@ where
         let d = bf(ag, &[s], false);
         let reach: Vec<usize> = (0..n).filter(|&v| d[v].is_some()).collect();
         let t = if rng.chance(75) { *rng.pick(&reach) } else { rng.below(n) };
-        with_cost!(rng, one_dij, ctx, g, s, Some(t), abs, conc);
+        with_cost!(rng, big, one_dij, ctx, g, s, Some(t), abs, conc);
     }
     // astar
     for _ in 0..6 {
@@ -198,7 +238,7 @@ where
             // no goal reachable from v: every estimate is admissible
             None => if rng.chance(50) { rng.range(0, 12) } else { 1000 },
         }).collect();
-        with_cost!(rng, one_astar, ctx, g, s, &goals, &h, abs, conc);
+        with_cost!(rng, big, one_astar, ctx, g, s, &goals, &h, abs, conc);
     }
     // k_shortest_path
     for i in 0..5 {
@@ -209,7 +249,7 @@ where
             let reach: Vec<usize> = (0..n).filter(|&v| d[v].is_some()).collect();
             Some(if rng.chance(75) { *rng.pick(&reach) } else { rng.below(n) })
         };
-        with_cost!(rng, one_ksp, ctx, g, s, goal, k, abs, conc);
+        with_cost!(rng, big, one_ksp, ctx, g, s, goal, k, abs, conc);
     }
 }
 
@@ -264,7 +304,7 @@ fn enc_name(k: usize) -> &'static str {
     ["graph-u32", "graph-u8", "stable-holes", "matrix", "graphmap", "csr", "adjlist", "reversed", "stable-u8"][k]
 }
 
-fn case_ty<Ty: petgraph::EdgeType>(ctx: &mut Ctx, rng: &mut Rng, ag: &AG, fam: usize, hint: Option<(usize, usize)>, case: u64) {
+fn case_ty<Ty: petgraph::EdgeType>(ctx: &mut Ctx, rng: &mut Rng, ag: &AG, fam: usize, hint: Option<(usize, usize)>, big: bool, case: u64) {
     let n = ag.n;
     let node_order = random_perm(rng, n);
     let edge_order = random_perm(rng, ag.edges.len());
@@ -281,7 +321,7 @@ fn case_ty<Ty: petgraph::EdgeType>(ctx: &mut Ctx, rng: &mut Rng, ag: &AG, fam: u
         }
     }
     let enc = *rng.pick(&choices);
-    ctx.raw(&format!("case {} fam={} enc={} n={} m={}", case, if hint.is_some() { "astar-trap" } else { family_name(fam) }, enc_name(enc), n, ag.edges.len()));
+    ctx.raw(&format!("case {} fam={} enc={} n={} m={}{}", case, if hint.is_some() { "astar-trap" } else { family_name(fam) }, enc_name(enc), n, ag.edges.len(), if big { " big" } else { "" }));
     match enc {
         0 => {
             let e = enc_graph::<Ty, u32>(ag, &node_order, &edge_order);
@@ -289,7 +329,7 @@ fn case_ty<Ty: petgraph::EdgeType>(ctx: &mut Ctx, rng: &mut Rng, ag: &AG, fam: u
             let abs = |x: petgraph::graph::NodeIndex<u32>| g[x];
             let conc = |a: usize| petgraph::graph::NodeIndex::<u32>::new(inv[a]);
             ctx.line(&view_line(ag, g, &abs, &|er, _| e.eid[EdgeRef::id(&er).index()]), "ok");
-            algos(ctx, rng, ag, hint, g, &abs, &conc);
+            algos(ctx, rng, ag, hint, big, g, &abs, &conc);
         }
         1 => {
             let e = enc_graph::<Ty, u8>(ag, &node_order, &edge_order);
@@ -297,7 +337,7 @@ fn case_ty<Ty: petgraph::EdgeType>(ctx: &mut Ctx, rng: &mut Rng, ag: &AG, fam: u
             let abs = |x: petgraph::graph::NodeIndex<u8>| g[x];
             let conc = |a: usize| petgraph::graph::NodeIndex::<u8>::new(inv[a]);
             ctx.line(&view_line(ag, g, &abs, &|er, _| e.eid[EdgeRef::id(&er).index()]), "ok");
-            algos(ctx, rng, ag, hint, g, &abs, &conc);
+            algos(ctx, rng, ag, hint, big, g, &abs, &conc);
         }
         2 => {
             let e = enc_stable::<Ty, u32>(rng, ag, &node_order, &edge_order, true);
@@ -306,7 +346,7 @@ fn case_ty<Ty: petgraph::EdgeType>(ctx: &mut Ctx, rng: &mut Rng, ag: &AG, fam: u
             let abs = |x: petgraph::graph::NodeIndex<u32>| g[x];
             let conc = |a: usize| cidx[a];
             ctx.line(&view_line(ag, g, &abs, &|er, _| e.eid[EdgeRef::id(&er).index()]), "ok");
-            algos(ctx, rng, ag, hint, g, &abs, &conc);
+            algos(ctx, rng, ag, hint, big, g, &abs, &conc);
         }
         8 => {
             let e = enc_stable::<Ty, u8>(rng, ag, &node_order, &edge_order, true);
@@ -315,7 +355,7 @@ fn case_ty<Ty: petgraph::EdgeType>(ctx: &mut Ctx, rng: &mut Rng, ag: &AG, fam: u
             let abs = |x: petgraph::graph::NodeIndex<u8>| g[x];
             let conc = |a: usize| cidx[a];
             ctx.line(&view_line(ag, g, &abs, &|er, _| e.eid[EdgeRef::id(&er).index()]), "ok");
-            algos(ctx, rng, ag, hint, g, &abs, &conc);
+            algos(ctx, rng, ag, hint, big, g, &abs, &conc);
         }
         3 => {
             let g0 = enc_matrix::<Ty>(rng, ag, &node_order, &edge_order, true);
@@ -324,7 +364,7 @@ fn case_ty<Ty: petgraph::EdgeType>(ctx: &mut Ctx, rng: &mut Rng, ag: &AG, fam: u
             let abs = |x: petgraph::matrix_graph::NodeIndex| *g.node_weight(x);
             let conc = |a: usize| cidx[a];
             ctx.line(&view_line_out_only(ag, g, &abs, &|er, used| { let (s, t) = (abs(EdgeRef::source(&er)), abs(EdgeRef::target(&er))); eid_by_lookup(ag, s, t, *EdgeRef::weight(&er), used) }), "ok");
-            algos(ctx, rng, ag, hint, g, &abs, &conc);
+            algos(ctx, rng, ag, hint, big, g, &abs, &conc);
         }
         4 => {
             let g0 = enc_map::<Ty>(ag, &node_order, &edge_order);
@@ -332,7 +372,7 @@ fn case_ty<Ty: petgraph::EdgeType>(ctx: &mut Ctx, rng: &mut Rng, ag: &AG, fam: u
             let abs = |x: usize| x;
             let conc = |a: usize| a;
             ctx.line(&view_line(ag, g, &abs, &|er, used| eid_by_lookup(ag, EdgeRef::source(&er), EdgeRef::target(&er), *EdgeRef::weight(&er), used)), "ok");
-            algos(ctx, rng, ag, hint, g, &abs, &conc);
+            algos(ctx, rng, ag, hint, big, g, &abs, &conc);
         }
         5 => {
             let g0 = enc_csr::<Ty>(ag, &node_order, &edge_order);
@@ -340,7 +380,7 @@ fn case_ty<Ty: petgraph::EdgeType>(ctx: &mut Ctx, rng: &mut Rng, ag: &AG, fam: u
             let abs = |x: u32| g[x];
             let conc = |a: usize| inv[a] as u32;
             ctx.line(&view_line_out_only(ag, g, &abs, &|er, used| eid_by_lookup(ag, abs(EdgeRef::source(&er)), abs(EdgeRef::target(&er)), *EdgeRef::weight(&er), used)), "ok");
-            algos(ctx, rng, ag, hint, g, &abs, &conc);
+            algos(ctx, rng, ag, hint, big, g, &abs, &conc);
         }
         6 => {
             let g0 = enc_list(ag, &node_order, &edge_order);
@@ -348,7 +388,7 @@ fn case_ty<Ty: petgraph::EdgeType>(ctx: &mut Ctx, rng: &mut Rng, ag: &AG, fam: u
             let abs = |x: u32| node_order[x as usize];
             let conc = |a: usize| inv[a] as u32;
             ctx.line(&view_line_out_only(ag, g, &abs, &|er, used| eid_by_lookup(ag, abs(EdgeRef::source(&er)), abs(EdgeRef::target(&er)), *EdgeRef::weight(&er), used)), "ok");
-            algos(ctx, rng, ag, hint, g, &abs, &conc);
+            algos(ctx, rng, ag, hint, big, g, &abs, &conc);
         }
         _ => {
             // Reversed(&Graph): the abstract graph is the reverse
@@ -358,7 +398,7 @@ fn case_ty<Ty: petgraph::EdgeType>(ctx: &mut Ctx, rng: &mut Rng, ag: &AG, fam: u
             let abs = |x: petgraph::graph::NodeIndex<u32>| e.g[x];
             let conc = |a: usize| petgraph::graph::NodeIndex::<u32>::new(inv[a]);
             ctx.line(&view_line(&rag, g, &abs, &|er, _| e.eid[EdgeRef::id(&er).index()]), "ok");
-            algos(ctx, rng, &rag, hint.map(|(a, b)| (b, a)), g, &abs, &conc);
+            algos(ctx, rng, &rag, hint.map(|(a, b)| (b, a)), big, g, &abs, &conc);
         }
     }
 }
@@ -409,12 +449,24 @@ pub fn run(ctx: &mut Ctx, case: u64) {
     // tie-heavy {0,1,2} (zero edges and zero cycles), or a wider range
     let (lo, hi) = match rng.below(6) { 0 => (0, 1), 1 | 2 => (0, 2), 3 => (0, 9), 4 => (0, 30), _ => (1, 12) };
     let opts = if rng.chance(65) { GenOpts::multi(max_n, lo, hi) } else { GenOpts { loops: rng.chance(50), wlo: lo, whi: hi, ..GenOpts::simple(max_n) } };
-    if rng.chance(14) {
+    let (mut ag, fam, hint) = if rng.chance(14) {
         let (ag, hint) = gen_trap(&mut rng, directed, max_n);
-        with_ty!(directed, case_ty, ctx, &mut rng, &ag, 0, Some(hint), case);
+        (ag, 0, Some(hint))
     } else {
         let (ag, fam) = gen_graph(&mut rng, directed, opts);
-        with_ty!(directed, case_ty, ctx, &mut rng, &ag, fam, None, case);
+        (ag, fam, None)
+    };
+    // "big": all costs scaled by one factor so that the largest sums come close to u32::MAX without
+    // leaving it: no cost any of the three algorithms computes exceeds (5n + 1) * max weight (a k-th
+    // cheapest walk, k <= 4, costs at most (k+1) * n * max weight), and 5n + 1 <= 8 (n + 1)
+    let big = rng.chance(8);
+    if big {
+        let maxw = ag.edges.iter().map(|e| e.2).max().unwrap_or(1).max(1);
+        let f = (u32::MAX as i64) / (8 * (ag.n as i64 + 1) * maxw);
+        for e in ag.edges.iter_mut() {
+            e.2 *= f;
+        }
     }
+    with_ty!(directed, case_ty, ctx, &mut rng, &ag, fam, hint, big, case);
     minscored(ctx, &mut rng);
 }
